@@ -489,6 +489,46 @@ func (x *Exec) evalCall(n *SCall, env *Env) Val {
 			}
 		}
 		x.fail("addr(%s): no such address-taken variable", id.Name)
+	case "rangekey": // rangekey(N): the key variable of map-range loop N
+		lit, ok := n.Args[0].(*SInt)
+		if !ok || x.fn == nil {
+			x.fail("rangekey() needs a loop ordinal")
+		}
+		for h, li := range x.loops {
+			if fmt.Sprint(li.ordinal) != lit.V {
+				continue
+			}
+			for _, in := range h.Instrs {
+				if nx, ok := in.(*ssa.Next); ok {
+					if v, ok := x.vals[nx]; ok && len(v.Tup) == 3 {
+						return v.Tup[1]
+					}
+				}
+			}
+		}
+		x.fail("rangekey(%s): loop is not a range over a map (or not yet executed)", lit.V)
+	case "ranged": // ranged(N): the (possibly unnamed) slice that range loop N iterates over
+		lit, ok := n.Args[0].(*SInt)
+		if !ok || x.fn == nil {
+			x.fail("ranged() needs a loop ordinal")
+		}
+		for h, li := range x.loops {
+			if fmt.Sprint(li.ordinal) != lit.V {
+				continue
+			}
+			for _, in := range h.Instrs {
+				if iff, ok := in.(*ssa.If); ok {
+					if cmp, ok := iff.Cond.(*ssa.BinOp); ok {
+						if call, ok := cmp.Y.(*ssa.Call); ok {
+							if b, ok := call.Call.Value.(*ssa.Builtin); ok && b.Name() == "len" {
+								return x.materialize(x.val(call.Call.Args[0]))
+							}
+						}
+					}
+				}
+			}
+		}
+		x.fail("ranged(%s): loop is not a range over a slice", lit.V)
 	case "arr": // arr(s): the backing array of a slice as an SMT array
 		v := arg(0)
 		if v.Sort != "Slice" || v.GT == nil {
